@@ -83,15 +83,15 @@ Section Walk.
   Local Notation h := (std_hash k).
   Local Notation st := (start_slot h n).
 
-  Hypothesis Hsmall : (size < M32)%N.
-  Hypothesis Hbytes : Forall (fun b => (b < 256)%N) f.
-  Hypothesis Hlen : length ps = length recs.
-  Hypothesis Hrec : forall i, i < length recs ->
+  Variable Hsmall : (size < M32)%N.
+  Variable Hbytes : Forall (fun b => (b < 256)%N) f.
+  Variable Hlen : length ps = length recs.
+  Variable Hrec : forall i, i < length recs ->
        (0 < nth i ps 0)%N /\ has f (nth i ps 0%N) (ser_rec (nth i recs ([], []))).
-  Hypothesis Htab : has f tp (concat (map (ser_islot hs ps) sl)).
-  Hypothesis Hok : table_ok recs (h mod 256) sl.
-  Hypothesis Hascii : ascii_key k.
-  Hypothesis Hn : 0 < n.
+  Variable Htab : has f tp (concat (map (ser_islot hs ps) sl)).
+  Variable Hok : table_ok recs (h mod 256) sl.
+  Variable Hascii : ascii_key k.
+  Variable Hn : 0 < n.
 
   Definition result : seek :=
     match first_idx recs k with
